@@ -22,7 +22,7 @@ def plan(tier):
     q = tier == 'quick'
     I = []
     shapes = _shapes(2, (1, 2)) if q else _shapes(2, (1, 2, 3)) + [(2, 1, 2), (1, 2, 1), (2, 2, 2)]
-    units = [(1, 2), (2, 2), (2, 1), (3, 2), (2, 3)] if not q else [(1, 2), (2, 2), (3, 2)]
+    units = [(1, 2), (2, 2), (3, 2), (2, 3)] if not q else [(1, 2), (2, 2), (3, 2)]   # (2,1) is not a mode of this row-vector library
     n = 0
     for (u1, u2) in units:
         for s1 in shapes:
